@@ -225,7 +225,16 @@ impl<'ccx, 'tcx: 'ccx> TyGenContext<'ccx, 'tcx> {
                                 e.def = info.def.clone(); // when a setter exists, use it's qualifiers instead.
                                 e.param_decls = info.param_decls.clone(); // also it's params, since the getter has none by definition.
                             }
-                            _ => { panic!("Method Info for {} already exists but isn't a getter or setter!", e.method_name); }
+                            _ => {
+                                // Two methods exposed under one name (e.g. renamed for method overloading):
+                                // this backend emits one definition per name
+                                self.errors.push_error(format!(
+                                    "nanobind backend: `{}` is exposed by more than one method ({} and {}); overloads are not generated, give one of them a different name for this backend",
+                                    e.method_name,
+                                    e.method.name.as_str(),
+                                    method.name.as_str()
+                                ));
+                            }
                         };
                     })
                     .or_insert(info);
